@@ -364,3 +364,5 @@ func GhostHas(p interface{}, attr string) bool {
 	return ok
 }
 func GhostCopy(dst, src interface{}) {}
+
+func Pin(v Int) Int { return v }
